@@ -36,6 +36,12 @@ Inductive case :=
 | CTok (fields : list (N * N)) (impl : res (list tblock)) (ranks : list (list N))
 (* getIDsBlocksGenerator with block size [size]: blocks and registry minima *)
 | CIds (size : nat) (ids : list sid) (impl : option (list (list sid))) (mins : list sid)
+(* writeDocsInOrder through a real docBlocksWriter (block size bsz; lens = on-disk lengths of the blocks it
+   wrote) over an active docs file fa / offsets oa / positions pa, for the ID list ids. impl: pn = new
+   positions of the IDs of ids, on = new block offsets; got_a / got_s = every ID of ids read through a
+   real DocsReader from the active resp. rewritten file; truth = the document stored for that ID *)
+| CDocs (bsz : N) (lens : list N) (pa : list (sid * N)) (oa : list N) (fa : dfile) (ids : list sid)
+        (pn : list (sid * N)) (on : list N) (got_a got_s : list (option doc)) (truth : list doc)
 (* one request sent to the three forms of one fraction + brute-force oracle; canonical answers *)
 | CForm (kind : N) (active sealed reloaded oracle : list N).
 
@@ -61,6 +67,15 @@ Definition case_agrees (c : case) : bool :=
   | CIds size ids impl mins =>
       option_eqb (list_eqb (list_eqb sid_eqb)) (id_blocks size ids) impl
       && match impl with Some bs => list_eqb sid_eqb (min_ids bs) mins | None => true end
+  | CDocs bsz lens pa oa fa ids pn on got_a got_s _ =>
+      match write_sorted bsz lens pa oa fa ids with
+      | Ok (pm, om, fm) =>
+          lN_eqb om on
+          && forallb (fun id => option_eqb N.eqb (pos_get pm id) (pos_get pn id)) ids
+          && list_eqb (option_eqb lN_eqb) (map (fetch_doc pm om fm) ids) got_s
+          && list_eqb (option_eqb lN_eqb) (map (fetch_doc pa oa fa) ids) got_a
+      | _ => false
+      end
   | CForm _ _ _ _ _ => true
   end.
 
@@ -134,6 +149,12 @@ Definition case_spec_ok (c : case) : bool :=
           && list_eqb sid_eqb mins (map (fun b => last b sid0) bs)
       | None => false
       end
+  | CDocs _ _ _ _ _ ids _ _ got_a got_s truth =>
+      (* every stored ID (the zero ID cannot be stored) reads the same document from both files *)
+      (length got_a =? length ids) && (length got_s =? length ids) && (length truth =? length ids)
+      && forallb (fun x => let '(id, (a, (s, t))) := x in
+                           sid_eqb id sid0 || (option_eqb lN_eqb a (Some t) && option_eqb lN_eqb s (Some t)))
+                 (combine ids (combine got_a (combine got_s truth)))
   | CForm _ a s r o => all_eq4 a s r o
   end.
 
